@@ -35,6 +35,51 @@ def rename(p, var, new):
     return q
 
 
+def branch_stream(ctx, n):
+    """one prepared state (carrying partials) used for TWO continuations applied the default way op(sm): in one the
+    variable v is derived alone, in the other together with every other declared variable; each branch must give the
+    partial of v that a fresh linear run of prefix + continuation gives, in whichever order the branches are taken"""
+    import epgpy as epg
+    for i in range(n):
+        p = dprog.gen_dprogram(ctx.rng, with_order2=(i % 3 == 0), plain=())
+        ops = p["ops"]
+        if len(ops) < 3:
+            continue
+        cut = ctx.rng.randint(1, len(ops) - 1)
+        pre, suf = ops[:cut], ops[cut:]
+        vs = sorted({v for o in pre if o["op"] == "dop" for v in o["order1"]})
+        if not vs:
+            continue
+        v = ctx.rng.choice(vs)
+        sufA = restrict({"pd": p["pd"], "ops": suf}, v)["ops"]
+        order = ctx.rng.choice(["AB", "BA"])
+
+        def go(sm, seq, inplace):
+            for o in seq:
+                sm = dprog.build(o)(sm, inplace=True) if inplace else dprog.build(o)(sm)
+            return sm
+        try:
+            sm0 = go(epg.StateMatrix(density=p["pd"]), pre, False)
+            before = dprog.snap_d(sm0)
+            res = {}
+            for br in order:
+                res[br] = dprog.snap_d(go(sm0, sufA if br == "A" else suf, False))
+            after = dprog.snap_d(sm0)
+            refA = dprog.snap_d(go(epg.StateMatrix(density=p["pd"]), pre + sufA, True))
+            refB = dprog.snap_d(go(epg.StateMatrix(density=p["pd"]), pre + suf, True))
+        except Exception as e:
+            ctx.report("branching from a prepared state raised %s: %s" % (type(e).__name__, str(e)[:200]), {"dcase": repr(p), "cut": cut, "var": v, "order": order},
+                       found_input=True, signature={"raises": type(e).__name__, "site": "branch"})
+            continue
+        ctx.count(("branch", repr(p), cut, v, order), nontrivial=True)
+        if before != after:
+            ctx.report("applying operators to a prepared state changed that state or its partials", {"dcase": repr(p), "cut": cut, "var": v, "order": order},
+                       found_input=True, signature={"why": "branch-input-changed"})
+        elif res["A"][0] != res["B"][0] or res["A"][1].get(v) != refA[1].get(v) or res["B"][1].get(v) != refB[1].get(v) or refA[1].get(v) != refB[1].get(v):
+            ctx.report("partial of %s differs between a branch deriving it alone, a branch deriving it with other variables, and fresh linear runs" % v,
+                       {"dcase": repr(p), "cut": cut, "var": v, "order": order}, found_input=True, signature={"why": "branch-dependent"})
+
+
 def run(ctx):
     proved = ctx.prove(gen=False)
     quick = ctx.tier == "quick"
@@ -73,6 +118,7 @@ def run(ctx):
         # (3) model correspondence (ties the theorems' model to diff.py)
         terms.append(dprog.term(p, snaps))
         kept.append(p)
+    branch_stream(ctx, 40 if quick else 1000)
     verdicts, errors = ctx.run_bool_cases("corr", dprog.HEADER, terms, chunk=6)
     for e in errors:
         ctx.report("correspondence shard failed to evaluate", {"theorem_or_correspondence": "C19 correspondence (Model/Diff.v)", "coq_output": e}, found_input=False)
